@@ -75,9 +75,13 @@ class Report(object):
     def violation(self, what, replay=None):
         """Record a violation, writing a replay file; returns the replay path."""
         os.makedirs(REPLAYS, exist_ok=True)
-        if len(self.violations) >= 12:  # enough replay files for one run; keep counting
-            self.violations.append({'what': what, 'replay': self.violations[-1]['replay']})
-            return self.violations[-1]['replay']
+        # enough replay files for one run (12 per kind of violation: unsigned ones, and each signature on its own, so that
+        # reproductions of known findings do not use up the files of other violations); keep counting
+        sig = what.get('signature') if isinstance(what, dict) else None
+        same = [v for v in self.violations if (v['what'].get('signature') if isinstance(v['what'], dict) else None) == sig]
+        if len(same) >= (12 if sig is None else 2):
+            self.violations.append({'what': what, 'replay': same[-1]['replay']})
+            return same[-1]['replay']
         body = _jsonable({'property': self.prop, 'tier': self.tier, 'seed': self.seed, 'what': what,
                           'replay': replay})
         h = hashlib.sha1(json.dumps(body, sort_keys=True).encode()).hexdigest()[:12]
@@ -129,3 +133,21 @@ class Report(object):
         with open(path, 'w') as f:
             json.dump(ev, f, indent=1, sort_keys=True)
         return path
+
+
+def rerun_and_match(run_fn, body):
+    """Replay for violations that have no smaller unit than the (deterministic, seeded) check itself: run the check again
+    with the tier and seed recorded in the replay file and report whether the same violation (same signature, or same
+    summary text) occurs again.  Returns True when the property holds on this case."""
+    r2 = Report(body['property'], body.get('tier', 'quick'), int(body.get('seed', 0)))
+    run_fn(r2, body.get('tier', 'quick'), int(body.get('seed', 0)))
+    want = body['what'] if isinstance(body['what'], dict) else {'summary': str(body['what'])}
+    hits = [v for v in r2.violations
+            if (want.get('signature') and v['what'].get('signature') == want.get('signature'))
+            or v['what'].get('summary') == want.get('summary')]
+    for v in hits[:3]:
+        print('VIOLATING', str(v['what'].get('summary'))[:500])
+    if not hits and r2.violations:
+        print('(%d other violation(s) on this tree, not the one in the replay file; first: %s)'
+              % (len(r2.violations), str(r2.violations[0]['what'].get('summary'))[:300]))
+    return not hits
